@@ -1,7 +1,10 @@
-(* ValuesProofs.v — proofs about Values.v (C07).  Main result: `history_refines` — for every store whose circuit
-   objects are reached at most once (D27 guard) and every finite history of update_var / edge updates / observations,
-   the store-based implementation model produces the outputs of the tree specification and its abstraction follows
-   the specification state.  `tget_tset` is the frame property of the specification. *)
+(* ValuesProofs.v — proofs about Values.v (C07).  Main result: `history_refines` — for EVERY object store (template objects
+   shared at will, sub-circuit objects included) and every finite history of update_var / edge updates / observations, the
+   store-based implementation model produces the outputs of the tree specification and its abstraction follows the
+   specification state.  Ingredients: stability of the abstraction under store changes outside the visited circuit
+   objects (`abs_stable`), a circuit object is never below itself (`acyclic`), deepcopy with memo yields fresh objects with
+   the same denotation (`copy_circ_fresh`), `add_node_template_equiv`.  `tget_tset` is the frame property of the
+   specification. *)
 From Coq Require Import List String Arith Bool QArith Qcanon Lia.
 From PV Require Import Heap Values.
 Import ListNotations.
@@ -110,30 +113,18 @@ Proof.
     intros. eapply HPQ; eauto. now right.
 Qed.
 
-(* ------------------------------------------------------------------ NoDup over appended lists *)
-Lemma NoDup_app_parts {A} (a b : list A) : NoDup (a ++ b) -> NoDup a /\ NoDup b /\ (forall x, In x a -> In x b -> False).
-Proof.
-  induction a as [|x a IH]; cbn; intros H.
-  - repeat split; [constructor|assumption|intros ? []].
-  - inversion H as [|? ? Hx Hr]; subst. destruct (IH Hr) as (Ha & Hb & Hd). repeat split.
-    + constructor; [|assumption]. intros Hin. apply Hx. apply in_or_app. now left.
-    + assumption.
-    + intros y [<-|Hy] Hyb; [apply Hx; apply in_or_app; now right|eauto].
-Qed.
+(* ------------------------------------------------------------------ circuit objects visited by the unfolding *)
+Fixpoint cids (d : nat) (h : heap) (c : id) : list id :=
+  match lookup h c with
+  | Some (OCirc ch _) => c :: match d with O => [] | S d' => flat_map (fun x => cids d' h (snd x)) ch end
+  | _ => []
+  end.
+Definition below (d : nat) (h : heap) (c : id) : list id :=
+  match lookup h c, d with
+  | Some (OCirc ch _), S d' => flat_map (fun x => cids d' h (snd x)) ch
+  | _, _ => []
+  end.
 
-Lemma nodupb_NoDup l : nodupb l = true <-> NoDup l.
-Proof.
-  induction l as [|x l IH]; cbn; [split; [constructor|reflexivity]|].
-  rewrite andb_true_iff, negb_true_iff, IH. split.
-  - intros [H1 H2]. constructor; [|assumption]. intros Hin.
-    assert (existsb (Nat.eqb x) l = true) by (apply existsb_exists; exists x; split; [assumption|apply Nat.eqb_refl]). congruence.
-  - intros H. inversion H as [|? ? Hx Hr]; subst. split; [|assumption].
-    destruct (existsb (Nat.eqb x) l) eqn:E; [|reflexivity]. apply existsb_exists in E as (y & Hy & Hxy).
-    apply Nat.eqb_eq in Hxy as <-. contradiction.
-Qed.
-
-(* ------------------------------------------------------------------ the abstraction is stable under store changes
-   that keep every non-circuit object and every circuit object of the tree *)
 Lemma op_den_stable h h' e o : op_den h e = Some o ->
   (forall i ob, lookup h i = Some ob -> is_circ ob = false -> lookup h' i = Some ob) -> op_den h' e = Some o.
 Proof.
@@ -147,14 +138,14 @@ Proof.
   rewrite (Hs _ _ E eq_refl). rewrite <- H. apply mapM_ext_in. intros e He.
   destruct (mapM_Some_in _ _ _ _ H He) as (o & Ho & _). rewrite Ho. eapply op_den_stable; eauto.
 Qed.
-Lemma abs_root d h c t : abs d h c = Some t -> In c (circ_ids t) /\ exists ch es, lookup h c = Some (OCirc ch es).
-Proof.
-  destruct d; cbn; destruct (lookup h c) as [[| |ch es]|]; try discriminate.
-  - destruct (mapM _ ch); [|discriminate]. intros [= <-]. cbn. eauto.
-  - destruct (mapM _ ch); [|discriminate]. intros [= <-]. cbn. eauto.
-Qed.
+Lemma abs_root d h c t : abs d h c = Some t -> exists ch es, lookup h c = Some (OCirc ch es).
+Proof. destruct d; cbn; destruct (lookup h c) as [[| |ch es]|]; try discriminate; eauto. Qed.
+Lemma cids_root d h c ch es : lookup h c = Some (OCirc ch es) -> In c (cids d h c).
+Proof. intros E. destruct d; cbn; rewrite E; now left. Qed.
+
+(* the abstraction is stable under store changes that keep every non-circuit object and every visited circuit object *)
 Lemma abs_stable d : forall h h' c t, abs d h c = Some t ->
-  (forall i ob, lookup h i = Some ob -> (is_circ ob = true -> In i (circ_ids t)) -> lookup h' i = Some ob) ->
+  (forall i ob, lookup h i = Some ob -> (is_circ ob = true -> In i (cids d h c)) -> lookup h' i = Some ob) ->
   abs d h' c = Some t.
 Proof.
   induction d as [|d IH]; intros h h' c t H Hs.
@@ -172,30 +163,76 @@ Proof.
     rewrite <- M. apply mapM_ext_in. intros [k x] Hx. destruct (mapM_Some_in _ _ _ _ M Hx) as (y & Hy & Hin).
     unfold lift in *. cbn in *. destruct (abs d h x) eqn:N; [|discriminate]. injection Hy as <-.
     erewrite IH; eauto. intros i ob Hi Hc. apply Hs; [assumption|]. intros Hc'. cbn. right.
-    apply in_flat_map. exists (k, a). split; [assumption|]. cbn. auto.
+    apply in_flat_map. exists (k, x). split; [assumption|]. cbn. auto.
 Qed.
 Lemma abs_extends d h h' c t : abs d h c = Some t -> extends h h' -> abs d h' c = Some t.
 Proof. intros H He. eapply abs_stable; eauto. intros. eapply extends_lookup; eauto. Qed.
 
-Lemma circ_ids_are_circuits d : forall h c t i, abs d h c = Some t -> In i (circ_ids t) ->
-  exists ch es, lookup h i = Some (OCirc ch es).
+Lemma cids_are_circuits d : forall h c i, In i (cids d h c) -> exists ch es, lookup h i = Some (OCirc ch es).
 Proof.
-  induction d as [|d IH]; intros h c t i H Hin.
-  - pose proof (abs_root _ _ _ _ H) as (_ & ch & es & E). cbn in H. rewrite E in H.
-    destruct (mapM _ ch); [|discriminate]. injection H as <-. cbn in Hin. destruct Hin as [<-|[]]. eauto.
-  - pose proof (abs_root _ _ _ _ H) as (_ & ch & es & E). cbn in H. rewrite E in H.
-    destruct (mapM (lift (abs d h)) ch) as [ss|] eqn:M; [|discriminate]. injection H as <-. cbn in Hin.
-    destruct Hin as [<-|Hin]; [eauto|]. apply in_flat_map in Hin as ([k s] & Hs & Hi). cbn in Hi.
-    assert (exists x, In (k, x) ch /\ abs d h x = Some s) as (x & _ & Hx).
-    { clear -M Hs. revert ss M Hs. induction ch as [|[k' x'] ch IHc]; intros ss M Hs.
-      - injection M as <-. destruct Hs.
-      - apply mapM_cons_inv in M as (y & r' & Hy & Hr & ->). unfold lift in Hy. cbn in Hy.
-        destruct (abs d h x') eqn:N; [|discriminate]. injection Hy as <-. destruct Hs as [[= <- <-]|Hs].
-        + exists x'. split; [now left|assumption].
-        + destruct (IHc _ Hr Hs) as (x & ? & ?). exists x. split; [now right|assumption]. }
-    eauto.
+  induction d as [|d IH]; intros h c i Hin; cbn [cids] in Hin; destruct (lookup h c) as [[| |ch es]|] eqn:E; try (now destruct Hin).
+  - destruct Hin as [<-|[]]. eauto.
+  - destruct Hin as [<-|Hin]; [eauto|]. apply in_flat_map in Hin as (x & _ & Hi). eauto.
 Qed.
 
+(* ------------------------------------------------------------------ a circuit object is never below itself:
+   the number of circuit objects of the unfolding does not depend on the depth at which an object is unfolded,
+   and everything strictly below has a strictly smaller unfolding *)
+Fixpoint hsize (d : nat) (h : heap) (c : id) : nat :=
+  match lookup h c with
+  | Some (OCirc ch _) => S (match d with O => O | S d' => list_sum (map (fun x => hsize d' h (snd x)) ch) end)
+  | _ => O
+  end.
+Lemma hsize_indep k : forall d h c t1 t2, abs k h c = Some t1 -> abs d h c = Some t2 -> hsize k h c = hsize d h c.
+Proof.
+  assert (Hempty : forall h d' (ch : list (string * id)) ns ss, mapM (lift (node_den h)) ch = Some ns ->
+            mapM (lift (abs d' h)) ch = Some ss -> ch = []).
+  { intros h d' [|[k0 x] ch] ns ss M1 M2; [reflexivity|].
+    apply mapM_cons_inv in M1 as (y1 & _ & Hy1 & _). apply mapM_cons_inv in M2 as (y2 & _ & Hy2 & _).
+    unfold lift in *. cbn in *. destruct (node_den h x) eqn:N; [|discriminate]. destruct (abs d' h x) eqn:A; [|discriminate].
+    apply abs_root in A as (? & ? & E). unfold node_den in N. rewrite E in N. discriminate. }
+  induction k as [|k IH]; intros d h c t1 t2 H1 H2.
+  - destruct d as [|d]; [reflexivity|]. cbn in *. destruct (lookup h c) as [[| |ch es]|]; try discriminate.
+    destruct (mapM (lift (node_den h)) ch) eqn:M1; [|discriminate]. destruct (mapM (lift (abs d h)) ch) eqn:M2; [|discriminate].
+    rewrite (Hempty _ _ _ _ _ M1 M2). reflexivity.
+  - destruct d as [|d].
+    + cbn in *. destruct (lookup h c) as [[| |ch es]|]; try discriminate.
+      destruct (mapM (lift (node_den h)) ch) eqn:M1; [|discriminate]. destruct (mapM (lift (abs k h)) ch) eqn:M2; [|discriminate].
+      rewrite (Hempty _ _ _ _ _ M1 M2). reflexivity.
+    + cbn in *. destruct (lookup h c) as [[| |ch es]|]; try discriminate.
+      destruct (mapM (lift (abs k h)) ch) eqn:M1; [|discriminate]. destruct (mapM (lift (abs d h)) ch) eqn:M2; [|discriminate].
+      do 2 f_equal. apply map_ext_in. intros [n x] Hx.
+      destruct (mapM_Some_in _ _ _ _ M1 Hx) as (y1 & Hy1 & _). destruct (mapM_Some_in _ _ _ _ M2 Hx) as (y2 & Hy2 & _).
+      unfold lift in *. cbn in *. destruct (abs k h x) eqn:A1; [|discriminate]. destruct (abs d h x) eqn:A2; [|discriminate]. eauto.
+Qed.
+Lemma list_sum_in {A} (f : A -> nat) l x : In x l -> f x <= list_sum (map f l).
+Proof. unfold list_sum. induction l as [|y l IH]; [intros []|]. intros [->|H]; cbn; [lia|]. specialize (IH H). lia. Qed.
+Lemma cids_smaller d : forall h c t i, abs d h c = Some t -> In i (cids d h c) ->
+  exists k ti, abs k h i = Some ti /\ hsize k h i <= hsize d h c /\ (In i (below d h c) -> hsize k h i < hsize d h c).
+Proof.
+  induction d as [|d IH]; intros h c t i H Hin.
+  - pose proof H as H0. cbn in H, Hin. unfold below. destruct (lookup h c) as [[| |ch es]|] eqn:E; try discriminate.
+    destruct Hin as [<-|[]]. exists 0, t. split; [assumption|]. split; [lia|intros []].
+  - pose proof H as H0. cbn in H, Hin. unfold below. destruct (lookup h c) as [[| |ch es]|] eqn:E; try discriminate.
+    destruct (mapM (lift (abs d h)) ch) as [ss|] eqn:M; [|discriminate].
+    assert (Hch : forall x, In x ch -> forall j, In j (cids d h (snd x)) ->
+              exists k tj, abs k h j = Some tj /\ hsize k h j < hsize (S d) h c).
+    { intros [n x] Hx j Hj. destruct (mapM_Some_in _ _ _ _ M Hx) as (y & Hy & _). unfold lift in Hy. cbn in Hy.
+      destruct (abs d h x) eqn:A; [|discriminate]. destruct (IH _ _ _ _ A Hj) as (k & tj & Hk & Hle & _).
+      exists k, tj. split; [assumption|]. cbn [hsize]. rewrite E.
+      pose proof (list_sum_in (fun x => hsize d h (snd x)) ch (n, x) Hx). cbn in *. lia. }
+    destruct Hin as [<-|Hin].
+    + exists (S d), t. split; [assumption|]. split; [lia|]. intros Hb. apply in_flat_map in Hb as (x & Hx & Hj).
+      destruct (Hch x Hx _ Hj) as (k & tj & Hk & Hlt). rewrite (hsize_indep _ _ _ _ _ _ H0 Hk) in Hlt. lia.
+    + apply in_flat_map in Hin as (x & Hx & Hj). destruct (Hch x Hx _ Hj) as (k & tj & Hk & Hlt).
+      exists k, tj. split; [assumption|]. split; [lia|auto].
+Qed.
+Lemma acyclic d h c t : abs d h c = Some t -> ~ In c (below d h c).
+Proof.
+  intros H Hb. destruct (abs_root _ _ _ _ H) as (ch & es & E).
+  destruct (cids_smaller d h c t c H (cids_root d h c ch es E)) as (k & tk & Hk & _ & Hlt).
+  specialize (Hlt Hb). rewrite (hsize_indep _ _ _ _ _ _ Hk H) in Hlt. lia.
+Qed.
 (* ------------------------------------------------------------------ get_node_template / get_nodes / has_var *)
 Lemma get_node_template_equiv d : forall h c t n, abs d h c = Some t ->
   match get_node_template d h c n with
@@ -251,82 +288,7 @@ Proof.
       * now rewrite (lift_dget_None _ _ _ _ M G).
 Qed.
 
-(* ------------------------------------------------------------------ add_node_template = functional update of the tree,
-   provided no circuit object is reached twice (the D27 guard) *)
-Lemma flat_ids_app (s1 s2 : list (string * atree)) k t :
-  flat_map (fun x => circ_ids (snd x)) (s1 ++ (k, t) :: s2) =
-  flat_map (fun x => circ_ids (snd x)) s1 ++ circ_ids t ++ flat_map (fun x => circ_ids (snd x)) s2.
-Proof. rewrite flat_map_app. reflexivity. Qed.
-
-Lemma add_node_template_equiv d : forall h c t n nid a,
-  abs d h c = Some t -> NoDup (circ_ids t) -> node_den h nid = Some a ->
-  match add_node_template d h c n nid with
-  | Some h' => exists t', tset_node t n a = Some t' /\ abs d h' c = Some t' /\ circ_ids t' = circ_ids t /\
-                          (forall i ob, lookup h i = Some ob -> ~ In i (circ_ids t) -> lookup h' i = Some ob)
-  | None => tset_node t n a = None
-  end.
-Proof.
-  induction d as [|d IH]; intros h c t n nid a H ND Ha.
-  - cbn in H. cbn [add_node_template]. destruct (lookup h c) as [[| |ch es]|] eqn:E; try discriminate.
-    destruct (mapM (lift (node_den h)) ch) as [ns|] eqn:M; [|discriminate]. injection H as <-.
-    destruct n as [|p rest]; [reflexivity|]. cbn [tset_node]. unfold dhas. destruct (dget p ch) as [x|] eqn:G.
-    + destruct (lift_dget_Some _ _ _ _ _ M G) as (a0 & Ha0 & Hg). rewrite Hg.
-      eexists. split; [reflexivity|]. pose proof (lookup_lt _ _ _ E) as Hlt.
-      pose proof (hset_same h c (OCirc (dset p nid ch) es) Hlt) as Hroot.
-      assert (Hoth : forall i, i <> c -> lookup (hset h c (OCirc (dset p nid ch) es)) i = lookup h i)
-        by (intros; apply hset_other; congruence).
-      remember (hset h c (OCirc (dset p nid ch) es)) as h' eqn:Eh'. clear Eh'.
-      assert (Hst : forall i ob, lookup h i = Some ob -> is_circ ob = false -> lookup h' i = Some ob).
-      { intros i ob Hi Hc. rewrite Hoth; [assumption|]. intros ->. rewrite E in Hi. injection Hi as <-. discriminate. }
-      split; [|split; [reflexivity|]].
-      * cbn. rewrite Hroot.
-        destruct (dget_split _ _ _ G) as (l1 & l2 & -> & Hn).
-        destruct (lift_split _ _ _ _ _ _ M) as (s1 & y & s2 & M1 & Hy & M2 & ->).
-        rewrite (dset_split _ _ _ _ nid Hn). rewrite (dset_split _ _ _ _ a (lift_dget_None _ _ _ _ M1 Hn)).
-        erewrite mapM_app; [reflexivity| |].
-        -- rewrite <- M1. apply mapM_ext_in. intros [k z] Hz. destruct (mapM_Some_in _ _ _ _ M1 Hz) as (w & Hw & _).
-           unfold lift in *. cbn in *. destruct (node_den h z) eqn:N; [|discriminate]. now rewrite (node_den_stable _ _ _ _ N Hst).
-        -- cbn. unfold lift at 1. cbn. rewrite (node_den_stable _ _ _ _ Ha Hst).
-           replace (mapM (lift (node_den h')) l2) with (Some s2); [reflexivity|].
-           rewrite <- M2. apply mapM_ext_in. intros [k z] Hz. destruct (mapM_Some_in _ _ _ _ M2 Hz) as (w & Hw & _).
-           unfold lift in *. cbn in *. destruct (node_den h z) eqn:N; [|discriminate]. now rewrite (node_den_stable _ _ _ _ N Hst).
-      * intros i ob Hi Hni. rewrite Hoth; [assumption|]. intros ->. apply Hni. cbn. auto.
-    + now rewrite (lift_dget_None _ _ _ _ M G).
-  - cbn in H. cbn [add_node_template]. destruct (lookup h c) as [[| |ch es]|] eqn:E; try discriminate.
-    destruct (mapM (lift (abs d h)) ch) as [ss|] eqn:M; [|discriminate]. injection H as <-.
-    destruct n as [|p rest]; [reflexivity|]. cbn [tset_node]. destruct (dget p ch) as [x|] eqn:G.
-    2: now rewrite (lift_dget_None _ _ _ _ M G).
-    destruct (dget_split _ _ _ G) as (l1 & l2 & -> & Hn).
-    destruct (lift_split _ _ _ _ _ _ M) as (s1 & tc & s2 & M1 & Hx & M2 & ->).
-    rewrite (dget_here _ _ _ _ (lift_dget_None _ _ _ _ M1 Hn)).
-    cbn [circ_ids] in ND. rewrite flat_ids_app in ND. inversion ND as [|? ? Hcn NDr]; subst.
-    apply NoDup_app_parts in NDr as (ND1 & NDr & D1). apply NoDup_app_parts in NDr as (NDt & ND2 & D2).
-    specialize (IH h x tc rest nid a Hx NDt Ha). destruct (add_node_template d h x rest nid) as [h'|]; [|now rewrite IH].
-    destruct IH as (tc' & -> & Habs & Hids & Hfr). eexists. split; [reflexivity|].
-    assert (Hkeep : forall (s : list (string * atree)) l, mapM (lift (abs d h)) l = Some s ->
-               (forall i, In i (flat_map (fun x => circ_ids (snd x)) s) -> ~ In i (circ_ids tc)) ->
-               mapM (lift (abs d h')) l = Some s).
-    { intros s l Ms Hdis. rewrite <- Ms. apply mapM_ext_in. intros [k z] Hz.
-      destruct (mapM_Some_in _ _ _ _ Ms Hz) as ([k' w] & Hw & Hin). unfold lift in *. cbn in *.
-      destruct (abs d h z) eqn:N; [|discriminate]. injection Hw as <- <-.
-      erewrite abs_stable; [reflexivity|exact N|]. intros i ob Hi Hc. apply Hfr; [assumption|].
-      destruct (is_circ ob) eqn:C.
-      - apply Hdis. apply in_flat_map. exists (k, a0). split; [assumption|]. cbn. auto.
-      - intros Hin'. destruct (circ_ids_are_circuits _ _ _ _ _ Hx Hin') as (? & ? & E'). rewrite E' in Hi. injection Hi as <-. discriminate. }
-    assert (Hc' : lookup h' c = Some (OCirc (l1 ++ (p, x) :: l2) es)).
-    { apply Hfr; [assumption|]. intros Hin. apply Hcn. apply in_or_app. right. apply in_or_app. now left. }
-    split; [|split].
-    + cbn. rewrite Hc'. rewrite (dset_split _ _ _ _ tc' (lift_dget_None _ _ _ _ M1 Hn)).
-      erewrite mapM_app; [reflexivity| |].
-      * apply Hkeep; [assumption|]. intros i Hi Hit. eapply D1; eauto. apply in_or_app. now left.
-      * cbn. unfold lift at 1. cbn. rewrite Habs. rewrite (Hkeep s2 l2 M2); [reflexivity|].
-        intros i Hi Hit. eapply D2; eauto.
-    + cbn. rewrite (dset_split _ _ _ _ tc' (lift_dget_None _ _ _ _ M1 Hn)). rewrite !flat_ids_app. now rewrite Hids.
-    + intros i ob Hi Hni. apply Hfr; [assumption|]. intros Hin. apply Hni. cbn. right. rewrite flat_ids_app.
-      apply in_or_app. right. apply in_or_app. now left.
-Qed.
-
-(* ------------------------------------------------------------------ deepcopy of a node template: fresh ids, same content *)
+(* ------------------------------------------------------------------ deepcopy of a node template (no memo): fresh ids, same content *)
 Lemma copy_ops_spec : forall ops h a, mapM (op_den h) ops = Some a ->
   exists h2 ops', copy_ops h ops = Some (h2, ops') /\ extends h h2 /\ mapM (op_den h2) ops' = Some a.
 Proof.
@@ -351,6 +313,271 @@ Proof.
   - rewrite lookup_alloc_new. etransitivity; [|exact Hm]. apply mapM_ext_in. intros x Hx.
     destruct (mapM_Some_in _ _ _ _ Hm Hx) as (y & Hy & _). rewrite Hy. eapply op_den_stable; eauto.
     intros. eapply extends_lookup; eauto. apply extends_app.
+Qed.
+
+(* ------------------------------------------------------------------ deepcopy of a circuit (with memo): the copy is made of
+   fresh objects only and has the denotation of the original at every depth *)
+Definition same_den (h0 h : heap) (i i' : id) : Prop :=
+  (forall n e dd, lookup h0 i = Some (OOp n e dd) -> lookup h i' = Some (OOp n e dd)) /\
+  (forall a, node_den h0 i = Some a -> node_den h i' = Some a) /\
+  (forall d t, abs d h0 i = Some t -> abs d h i' = Some t).
+Definition suffix_closed (h0 h : heap) : Prop :=
+  forall j ch es, List.length h0 <= j -> lookup h j = Some (OCirc ch es) -> forall x, In x ch -> List.length h0 <= snd x.
+Definition minv (h0 h : heap) (m : memo) : Prop :=
+  extends h0 h /\ suffix_closed h0 h /\ forall i i', mget i m = Some i' -> List.length h0 <= i' /\ same_den h0 h i i'.
+Definition fgood (h0 : heap) (f : heap -> memo -> id -> option (heap * memo * id)) (D : id -> Prop) : Prop :=
+  forall h m i, minv h0 h m -> D i ->
+    exists h2 m2 i', f h m i = Some (h2, m2, i') /\ minv h0 h2 m2 /\ extends h h2 /\ List.length h0 <= i' /\ same_den h0 h2 i i'.
+
+Lemma same_den_mono h0 h h2 i i' : same_den h0 h i i' -> extends h h2 -> same_den h0 h2 i i'.
+Proof.
+  intros (H1 & H2 & H3) He. repeat split; intros.
+  - eapply extends_lookup; eauto.
+  - eapply node_den_stable; eauto. intros. eapply extends_lookup; eauto.
+  - eapply abs_extends; eauto.
+Qed.
+Lemma suffix_closed_app h0 h o : extends h0 h -> suffix_closed h0 h ->
+  (forall ch es, o = OCirc ch es -> forall x, In x ch -> List.length h0 <= snd x) -> suffix_closed h0 (h ++ [o]).
+Proof.
+  intros He Hs Ho j ch es Hj Hl x Hx. destruct (Nat.lt_ge_cases j (List.length h)) as [Hlt|Hge].
+  - unfold lookup in Hl. rewrite nth_error_app1 in Hl by assumption. eapply Hs; eauto.
+  - pose proof (lookup_lt _ _ _ Hl) as Hb. rewrite app_length in Hb. cbn in Hb.
+    assert (j = List.length h) by lia. subst j. rewrite lookup_alloc_new in Hl. injection Hl as ->. eapply Ho; eauto.
+Qed.
+Lemma minv_add h0 h m o i : minv h0 h m -> 
+  (forall ch es, o = OCirc ch es -> forall x, In x ch -> List.length h0 <= snd x) ->
+  same_den h0 (h ++ [o]) i (List.length h) -> minv h0 (h ++ [o]) ((i, List.length h) :: m).
+Proof.
+  intros (He & Hs & Hm) Ho Hd. split; [eapply extends_trans; [eassumption|apply extends_app]|].
+  split; [now apply suffix_closed_app|]. intros j j' Hg. cbn in Hg. destruct (Nat.eqb j i) eqn:Ej.
+  - apply Nat.eqb_eq in Ej as ->. injection Hg as <-. split; [now apply extends_length|assumption].
+  - destruct (Hm _ _ Hg) as (? & ?). split; [assumption|]. eapply same_den_mono; eauto. apply extends_app.
+Qed.
+
+Lemma copy_ops_m_spec h0 : forall ops h m a, minv h0 h m -> mapM (op_den h0) ops = Some a ->
+  exists h2 m2 ops', copy_ops_m h m ops = Some (h2, m2, ops') /\ minv h0 h2 m2 /\ extends h h2 /\ mapM (op_den h2) ops' = Some a.
+Proof.
+  induction ops as [|[oid vs] ops IH]; intros h m a Hi H.
+  - injection H as <-. exists h, m, []. split; [reflexivity|]. split; [exact Hi|]. split; [apply extends_refl|reflexivity].
+  - apply mapM_cons_inv in H as (o & r & Ho & Hr & ->). unfold op_den in Ho. cbn [fst snd] in Ho. cbn [copy_ops_m].
+    destruct (lookup h0 oid) as [[n e dd| |]|] eqn:E; rewrite ?E in Ho; try discriminate. injection Ho as <-.
+    destruct (mget oid m) as [oid'|] eqn:G.
+    + destruct Hi as (He & Hs & Hm). destruct (Hm _ _ G) as (_ & Hop & _). specialize (Hop _ _ _ E).
+      destruct (IH h m r (conj He (conj Hs Hm)) Hr) as (h2 & m2 & ops' & -> & Hi2 & Hext & Hmm).
+      exists h2, m2, ((oid', vs) :: ops'). split; [reflexivity|]. split; [assumption|]. split; [assumption|].
+      cbn [mapM]. unfold op_den at 1. cbn [fst snd]. rewrite (extends_lookup _ _ _ _ Hext Hop). now rewrite Hmm.
+    + pose proof Hi as (He & _). rewrite (extends_lookup _ _ _ _ He E).
+      assert (Hi1 : minv h0 (h ++ [OOp n e dd]) ((oid, List.length h) :: m)).
+      { apply minv_add; [assumption|intros; discriminate|]. repeat split.
+        - intros n' e' dd' E'. rewrite E in E'. injection E' as <- <- <-. apply lookup_alloc_new.
+        - intros a' Ha. unfold node_den in Ha. rewrite E in Ha. discriminate.
+        - intros d t Ht. apply abs_root in Ht as (? & ? & E'). congruence. }
+      destruct (IH _ _ r Hi1 Hr) as (h2 & m2 & ops' & -> & Hi2 & Hext & Hmm).
+      exists h2, m2, ((List.length h, vs) :: ops'). split; [reflexivity|]. split; [assumption|]. split.
+      * eapply extends_trans; [apply extends_app|eassumption].
+      * cbn [mapM]. unfold op_den at 1. cbn [fst snd].
+        rewrite (extends_lookup _ _ _ _ Hext (lookup_alloc_new h (OOp n e dd))). now rewrite Hmm.
+Qed.
+Lemma copy_node_m_good h0 : fgood h0 copy_node_m (fun i => exists a, node_den h0 i = Some a).
+Proof.
+  intros h m nid Hi (a & Ha). unfold copy_node_m. destruct (mget nid m) as [nid'|] eqn:G.
+  - exists h, m, nid'. pose proof Hi as (He & Hs & Hm). destruct (Hm _ _ G) as (? & ?). split; [reflexivity|]. split; [exact Hi|]. split; [apply extends_refl|]. split; assumption.
+  - pose proof Hi as (He & _). unfold node_den in Ha. destruct (lookup h0 nid) as [[|ops|]|] eqn:E; try discriminate.
+    rewrite (extends_lookup _ _ _ _ He E).
+    destruct (copy_ops_m_spec h0 ops h m a Hi Ha) as (h2 & m2 & ops' & -> & Hi2 & Hext & Hmm).
+    assert (Hd : same_den h0 (h2 ++ [ONode ops']) nid (List.length h2)).
+    { repeat split.
+      - intros n' e' dd' E'. congruence.
+      - intros a' Ha'. unfold node_den in *. rewrite E in Ha'. rewrite lookup_alloc_new. assert (a' = a) by congruence. subst a'.
+        etransitivity; [|exact Hmm]. apply mapM_ext_in. intros x Hx.
+        destruct (mapM_Some_in _ _ _ _ Hmm Hx) as (y & Hy & _). rewrite Hy. eapply op_den_stable; eauto.
+        intros. eapply extends_lookup; eauto. apply extends_app.
+      - intros d t Ht. apply abs_root in Ht as (? & ? & E'). congruence. }
+    eexists _, _, _. split; [reflexivity|]. split; [apply minv_add; [assumption|intros; discriminate|assumption]|].
+    split; [eapply extends_trans; [eassumption|apply extends_app]|]. split; [|assumption].
+    destruct Hi2 as (He2 & _). now apply extends_length.
+Qed.
+
+Definition crel (h0 h : heap) (x x' : string * id) : Prop :=
+  fst x = fst x' /\ List.length h0 <= snd x' /\ same_den h0 h (snd x) (snd x').
+Lemma copy_children_spec h0 f D : fgood h0 f D -> forall ch h m, minv h0 h m -> (forall x, In x ch -> D (snd x)) ->
+  exists h2 m2 ch', copy_children f h m ch = Some (h2, m2, ch') /\ minv h0 h2 m2 /\ extends h h2 /\ Forall2 (crel h0 h2) ch ch'.
+Proof.
+  intros Hf. induction ch as [|[n c] ch IH]; intros h m Hi HD.
+  - exists h, m, []. split; [reflexivity|]. split; [exact Hi|]. split; [apply extends_refl|constructor].
+  - cbn [copy_children]. destruct (Hf h m c Hi (HD (n, c) (or_introl eq_refl))) as (h1 & m1 & c' & -> & Hi1 & He1 & Hc' & Hd).
+    destruct (IH h1 m1 Hi1 (fun x Hx => HD x (or_intror Hx))) as (h2 & m2 & ch' & -> & Hi2 & He2 & HF).
+    exists h2, m2, ((n, c') :: ch'). split; [reflexivity|]. split; [assumption|]. split; [eapply extends_trans; eauto|].
+    constructor; [|assumption]. split; [reflexivity|]. split; [assumption|]. eapply same_den_mono; eauto.
+Qed.
+Lemma Forall2_imp {A B} (P Q : A -> B -> Prop) l l' : (forall a b, P a b -> Q a b) -> Forall2 P l l' -> Forall2 Q l l'.
+Proof. intros H HF. induction HF; constructor; auto. Qed.
+Lemma lift_transfer {B} (f0 f : id -> option B) ch ch' s :
+  Forall2 (fun x x' : string * id => fst x = fst x' /\ (forall y, f0 (snd x) = Some y -> f (snd x') = Some y)) ch ch' ->
+  mapM (lift f0) ch = Some s -> mapM (lift f) ch' = Some s.
+Proof.
+  intros HF. revert s. induction HF as [|[n x] [n' x'] ch ch' (Hn & Hx) HF IH]; intros s H; [assumption|].
+  apply mapM_cons_inv in H as (y & r & Hy & Hr & ->). unfold lift in Hy. cbn in *. subst n'.
+  destruct (f0 x) eqn:E; [|discriminate]. injection Hy as <-. unfold lift at 1. cbn. rewrite (Hx _ eq_refl). now rewrite (IH _ Hr).
+Qed.
+Lemma copy_circ_good h0 d : fgood h0 (copy_circ d) (fun i => exists t, abs d h0 i = Some t).
+Proof.
+  induction d as [|d IH]; intros h m c Hi (t & Ht).
+  - cbn [copy_circ]. destruct (mget c m) as [c'|] eqn:G.
+    + exists h, m, c'. pose proof Hi as (He & Hs & Hm). destruct (Hm _ _ G) as (? & ?). split; [reflexivity|]. split; [exact Hi|]. split; [apply extends_refl|]. split; assumption.
+    + pose proof Hi as (He & _). destruct (abs_root _ _ _ _ Ht) as (ch & es & E). rewrite (extends_lookup _ _ _ _ He E).
+      assert (HD : forall x, In x ch -> exists a, node_den h0 (snd x) = Some a).
+      { cbn in Ht. rewrite E in Ht. destruct (mapM (lift (node_den h0)) ch) eqn:M; [|discriminate]. intros x Hx.
+        destruct (mapM_Some_in _ _ _ _ M Hx) as (y & Hy & _). unfold lift in Hy. destruct (node_den h0 (snd x)); [eauto|discriminate]. }
+      destruct (copy_children_spec h0 _ _ (copy_node_m_good h0) ch h m Hi HD) as (h2 & m2 & ch' & -> & Hi2 & He2 & HF).
+      assert (Hd : same_den h0 (h2 ++ [OCirc ch' es]) c (List.length h2)).
+      { repeat split.
+        - intros; congruence.
+        - intros a Ha. unfold node_den in Ha. rewrite E in Ha. discriminate.
+        - intros d' t' Ht'. destruct d'; cbn in Ht' |- *; rewrite E in Ht'; rewrite lookup_alloc_new.
+          + destruct (mapM (lift (node_den h0)) ch) eqn:M; [|discriminate].
+            rewrite (lift_transfer (node_den h0) (node_den (h2 ++ [OCirc ch' es])) ch ch' l); [assumption| |assumption].
+            eapply Forall2_imp; [|exact HF]. intros x x' (Hn & _ & Hs). split; [assumption|].
+            intros y Hy. eapply (same_den_mono _ _ _ _ _ Hs (extends_app _ _)); eauto.
+          + destruct (mapM (lift (abs d' h0)) ch) eqn:M; [|discriminate].
+            rewrite (lift_transfer (abs d' h0) (abs d' (h2 ++ [OCirc ch' es])) ch ch' l); [assumption| |assumption].
+            eapply Forall2_imp; [|exact HF]. intros x x' (Hn & _ & Hs). split; [assumption|].
+            intros y Hy. eapply (same_den_mono _ _ _ _ _ Hs (extends_app _ _)); eauto. }
+      eexists _, _, _. split; [reflexivity|]. split.
+      * apply minv_add; [assumption| |assumption]. intros ch0 es0 [= <- <-] x Hx.
+        clear -HF Hx. induction HF as [|a b l l' (_ & Hb & _) HF IH]; [destruct Hx|]. destruct Hx as [<-|Hx]; auto.
+      * split; [eapply extends_trans; [eassumption|apply extends_app]|]. split; [|assumption].
+        destruct Hi2 as (He2' & _). now apply extends_length.
+  - cbn [copy_circ]. destruct (mget c m) as [c'|] eqn:G.
+    + exists h, m, c'. pose proof Hi as (He & Hs & Hm). destruct (Hm _ _ G) as (? & ?). split; [reflexivity|]. split; [exact Hi|]. split; [apply extends_refl|]. split; assumption.
+    + pose proof Hi as (He & _). destruct (abs_root _ _ _ _ Ht) as (ch & es & E). rewrite (extends_lookup _ _ _ _ He E).
+      assert (HD : forall x, In x ch -> exists a, abs d h0 (snd x) = Some a).
+      { cbn in Ht. rewrite E in Ht. destruct (mapM (lift (abs d h0)) ch) eqn:M; [|discriminate]. intros x Hx.
+        destruct (mapM_Some_in _ _ _ _ M Hx) as (y & Hy & _). unfold lift in Hy. destruct (abs d h0 (snd x)); [eauto|discriminate]. }
+      destruct (copy_children_spec h0 _ _ IH ch h m Hi HD) as (h2 & m2 & ch' & -> & Hi2 & He2 & HF).
+      assert (Hd : same_den h0 (h2 ++ [OCirc ch' es]) c (List.length h2)).
+      { repeat split.
+        - intros; congruence.
+        - intros a Ha. unfold node_den in Ha. rewrite E in Ha. discriminate.
+        - intros d' t' Ht'. destruct d'; cbn in Ht' |- *; rewrite E in Ht'; rewrite lookup_alloc_new.
+          + destruct (mapM (lift (node_den h0)) ch) eqn:M; [|discriminate].
+            rewrite (lift_transfer (node_den h0) (node_den (h2 ++ [OCirc ch' es])) ch ch' l); [assumption| |assumption].
+            eapply Forall2_imp; [|exact HF]. intros x x' (Hn & _ & Hs). split; [assumption|].
+            intros y Hy. eapply (same_den_mono _ _ _ _ _ Hs (extends_app _ _)); eauto.
+          + destruct (mapM (lift (abs d' h0)) ch) eqn:M; [|discriminate].
+            rewrite (lift_transfer (abs d' h0) (abs d' (h2 ++ [OCirc ch' es])) ch ch' l); [assumption| |assumption].
+            eapply Forall2_imp; [|exact HF]. intros x x' (Hn & _ & Hs). split; [assumption|].
+            intros y Hy. eapply (same_den_mono _ _ _ _ _ Hs (extends_app _ _)); eauto. }
+      eexists _, _, _. split; [reflexivity|]. split.
+      * apply minv_add; [assumption| |assumption]. intros ch0 es0 [= <- <-] x Hx.
+        clear -HF Hx. induction HF as [|a b l l' (_ & Hb & _) HF IH]; [destruct Hx|]. destruct Hx as [<-|Hx]; auto.
+      * split; [eapply extends_trans; [eassumption|apply extends_app]|]. split; [|assumption].
+        destruct Hi2 as (He2' & _). now apply extends_length.
+Qed.
+
+Theorem copy_circ_fresh d h x t : abs d h x = Some t ->
+  exists h1 m x', copy_circ d h [] x = Some (h1, m, x') /\ extends h h1 /\ List.length h <= x' /\
+                  abs d h1 x' = Some t /\ suffix_closed h h1.
+Proof.
+  intros H. assert (Hi : minv h h []).
+  { split; [apply extends_refl|]. split; [|intros ? ? [=]]. intros j ch es Hj Hl. apply lookup_lt in Hl. lia. }
+  destruct (copy_circ_good h d h [] x Hi (ex_intro _ t H)) as (h1 & m & x' & Hc & (_ & Hs & _) & He & Hx' & (_ & _ & Hd)).
+  exists h1, m, x'. repeat split; auto.
+Qed.
+
+(* a fresh copy only reaches fresh circuit objects: writing into an OLD circuit object does not change it *)
+Lemma suffix_cids h0 h : suffix_closed h0 h -> forall d c j, List.length h0 <= c -> In j (cids d h c) -> List.length h0 <= j.
+Proof.
+  intros Hs. induction d as [|d IH]; intros c j Hc Hj; cbn [cids] in Hj; destruct (lookup h c) as [[| |ch es]|] eqn:E; try (now destruct Hj).
+  - destruct Hj as [<-|[]]. assumption.
+  - destruct Hj as [<-|Hj]; [assumption|]. apply in_flat_map in Hj as (x & Hx & Hj). eapply IH; [|eassumption]. eapply Hs; eauto.
+Qed.
+Lemma fresh_copy_untouched h0 h d c' t w o : suffix_closed h0 h -> List.length h0 <= c' -> abs d h c' = Some t ->
+  w < List.length h0 -> (exists ch es, lookup h w = Some (OCirc ch es)) -> abs d (hset h w o) c' = Some t.
+Proof.
+  intros Hs Hc H Hw (ch & es & Ew). eapply abs_stable; [exact H|]. intros i ob Hi Hcirc.
+  destruct (Nat.eq_dec i w) as [->|Hne]; [|rewrite hset_other; congruence].
+  rewrite Ew in Hi. injection Hi as <-. specialize (Hcirc eq_refl). pose proof (suffix_cids _ _ Hs _ _ _ Hc Hcirc). lia.
+Qed.
+(* ------------------------------------------------------------------ add_node_template (with fix D47) = functional update
+   of the tree, for EVERY store: only the object it is called on and fresh copies are written *)
+Lemma add_node_template_equiv d : forall h c t n nid a,
+  abs d h c = Some t -> node_den h nid = Some a ->
+  match add_node_template d h c n nid with
+  | Some h' => exists t', tset_node t n a = Some t' /\ abs d h' c = Some t' /\
+                          (forall i ob, lookup h i = Some ob -> i <> c -> lookup h' i = Some ob)
+  | None => tset_node t n a = None
+  end.
+Proof.
+  induction d as [|d IH]; intros h c t n nid a H Ha.
+  - cbn in H. cbn [add_node_template]. destruct (lookup h c) as [[| |ch es]|] eqn:E; try discriminate.
+    destruct (mapM (lift (node_den h)) ch) as [ns|] eqn:M; [|discriminate]. injection H as <-.
+    destruct n as [|p rest]; [reflexivity|]. cbn [tset_node]. unfold dhas. destruct (dget p ch) as [x|] eqn:G.
+    + destruct (lift_dget_Some _ _ _ _ _ M G) as (a0 & Ha0 & Hg). rewrite Hg.
+      eexists. split; [reflexivity|]. pose proof (lookup_lt _ _ _ E) as Hlt.
+      pose proof (hset_same h c (OCirc (dset p nid ch) es) Hlt) as Hroot.
+      assert (Hoth : forall i, i <> c -> lookup (hset h c (OCirc (dset p nid ch) es)) i = lookup h i)
+        by (intros; apply hset_other; congruence).
+      remember (hset h c (OCirc (dset p nid ch) es)) as h' eqn:Eh'. clear Eh'.
+      assert (Hst : forall i ob, lookup h i = Some ob -> is_circ ob = false -> lookup h' i = Some ob).
+      { intros i ob Hi Hc. rewrite Hoth; [assumption|]. intros ->. rewrite E in Hi. injection Hi as <-. discriminate. }
+      split.
+      * cbn. rewrite Hroot.
+        destruct (dget_split _ _ _ G) as (l1 & l2 & -> & Hn).
+        destruct (lift_split _ _ _ _ _ _ M) as (s1 & y & s2 & M1 & Hy & M2 & ->).
+        rewrite (dset_split _ _ _ _ nid Hn). rewrite (dset_split _ _ _ _ a (lift_dget_None _ _ _ _ M1 Hn)).
+        erewrite mapM_app; [reflexivity| |].
+        -- rewrite <- M1. apply mapM_ext_in. intros [k z] Hz. destruct (mapM_Some_in _ _ _ _ M1 Hz) as (w & Hw & _).
+           unfold lift in *. cbn in *. destruct (node_den h z) eqn:N; [|discriminate]. now rewrite (node_den_stable _ _ _ _ N Hst).
+        -- cbn. unfold lift at 1. cbn. rewrite (node_den_stable _ _ _ _ Ha Hst).
+           replace (mapM (lift (node_den h')) l2) with (Some s2); [reflexivity|].
+           rewrite <- M2. apply mapM_ext_in. intros [k z] Hz. destruct (mapM_Some_in _ _ _ _ M2 Hz) as (w & Hw & _).
+           unfold lift in *. cbn in *. destruct (node_den h z) eqn:N; [|discriminate]. now rewrite (node_den_stable _ _ _ _ N Hst).
+      * intros i ob Hi Hni. rewrite Hoth; assumption.
+    + now rewrite (lift_dget_None _ _ _ _ M G).
+  - pose proof (acyclic _ _ _ _ H) as Hacyc. unfold below in Hacyc.
+    cbn in H. cbn [add_node_template]. destruct (lookup h c) as [[| |ch es]|] eqn:E; try discriminate.
+    destruct (mapM (lift (abs d h)) ch) as [ss|] eqn:M; [|discriminate]. injection H as <-.
+    destruct n as [|p rest]; [reflexivity|]. cbn [tset_node]. destruct (dget p ch) as [x|] eqn:G.
+    2: now rewrite (lift_dget_None _ _ _ _ M G).
+    destruct (dget_split _ _ _ G) as (l1 & l2 & Ech & Hn).
+    pose proof M as M0. rewrite Ech in M0.
+    destruct (lift_split _ _ _ _ _ _ M0) as (s1 & tc & s2 & M1 & Hx & M2 & ->).
+    rewrite (dget_here _ _ _ _ (lift_dget_None _ _ _ _ M1 Hn)).
+    destruct (copy_circ_fresh d h x tc Hx) as (h1 & m & x' & -> & He & Hx' & Habs1 & Hs).
+    pose proof (lookup_lt _ _ _ E) as Hlt. pose proof (extends_lookup _ _ _ _ He E) as E1.
+    pose proof (extends_length _ _ He) as Hlen.
+    assert (Hlt1 : c < List.length h1) by lia.
+    pose proof (hset_same h1 c (OCirc (dset p x' ch) es) Hlt1) as Hroot.
+    assert (Hoth : forall i, i <> c -> lookup (hset h1 c (OCirc (dset p x' ch) es)) i = lookup h1 i)
+      by (intros; apply hset_other; congruence).
+    assert (Habs2 : abs d (hset h1 c (OCirc (dset p x' ch) es)) x' = Some tc)
+      by (eapply fresh_copy_untouched; eauto).
+    remember (hset h1 c (OCirc (dset p x' ch) es)) as h2 eqn:Eh2. clear Eh2.
+    assert (Hold : forall i ob, lookup h i = Some ob -> i <> c -> lookup h2 i = Some ob).
+    { intros i ob Hi Hne. rewrite Hoth by assumption. eapply extends_lookup; eauto. }
+    assert (Ha2 : node_den h2 nid = Some a).
+    { eapply node_den_stable; [exact Ha|]. intros i ob Hi Hc. apply Hold; [assumption|]. intros ->. rewrite E in Hi. injection Hi as <-. discriminate. }
+    specialize (IH h2 x' tc rest nid a Habs2 Ha2).
+    destruct (add_node_template d h2 x' rest nid) as [h3|]; [|now rewrite IH].
+    destruct IH as (tc' & -> & Habs3 & Hfr3). eexists. split; [reflexivity|].
+    assert (Hnew : forall i ob, lookup h i = Some ob -> i <> c -> lookup h3 i = Some ob).
+    { intros i ob Hi Hne. apply Hfr3; [now apply Hold|]. apply lookup_lt in Hi. lia. }
+    split; [|assumption].
+    assert (Hkeep : forall l s, (forall z, In z l -> In z ch) -> mapM (lift (abs d h)) l = Some s -> mapM (lift (abs d h3)) l = Some s).
+    { intros l s Hsub Ms. rewrite <- Ms. apply mapM_ext_in. intros [k z] Hz.
+      destruct (mapM_Some_in _ _ _ _ Ms Hz) as (w & Hw & _). unfold lift in *. cbn in *.
+      destruct (abs d h z) eqn:N; [|discriminate].
+      erewrite abs_stable; [reflexivity|exact N|]. intros i ob Hi Hc.
+      destruct (Nat.eq_dec i c) as [->|Hne]; [|now apply Hnew].
+      exfalso. apply Hacyc. rewrite E in Hi. injection Hi as <-. apply in_flat_map. exists (k, z).
+      split; [now apply Hsub|]. cbn. now apply Hc. }
+    cbn. assert (Hc3 : lookup h3 c = Some (OCirc (dset p x' ch) es)) by (apply Hfr3; [assumption|lia]).
+    rewrite Hc3. rewrite Ech. rewrite (dset_split _ _ _ _ x' Hn). rewrite (dset_split _ _ _ _ tc' (lift_dget_None _ _ _ _ M1 Hn)).
+    erewrite mapM_app; [reflexivity| |].
+    + apply Hkeep; [|assumption]. intros z Hz. rewrite Ech. apply in_or_app. now left.
+    + cbn. unfold lift at 1. cbn. rewrite Habs3. rewrite (Hkeep l2 s2); [reflexivity| |assumption].
+      intros z Hz. rewrite Ech. apply in_or_app. right. now right.
 Qed.
 
 (* ------------------------------------------------------------------ NodeTemplate.update_var on one node object *)
@@ -387,13 +614,13 @@ Proof.
 Qed.
 
 (* ------------------------------------------------------------------ update_var for one target *)
-Lemma upd_one_equiv d r h t n op var v : abs d h r = Some t -> NoDup (circ_ids t) ->
+Lemma upd_one_equiv d r h t n op var v : abs d h r = Some t ->
   match upd_one d r h n op var v with
-  | Some h' => exists t', tupd_one t n op var v = Some t' /\ abs d h' r = Some t' /\ circ_ids t' = circ_ids t
+  | Some h' => exists t', tupd_one t n op var v = Some t' /\ abs d h' r = Some t'
   | None => tupd_one t n op var v = None
   end.
 Proof.
-  intros H ND. unfold upd_one, tupd_one. pose proof (get_node_template_equiv d h r t n H) as G.
+  intros H. unfold upd_one, tupd_one. pose proof (get_node_template_equiv d h r t n H) as G.
   destruct (get_node_template d h r n) as [nid|]; [|now rewrite G]. destruct G as (a & Ha & ->).
   destruct (copy_node_spec _ _ _ Ha) as (h1 & nid' & -> & Hext & Hfresh & Ha1).
   pose proof (node_update_var_spec h1 nid' a op var v Ha1) as U.
@@ -401,31 +628,29 @@ Proof.
   destruct U as (a' & -> & Ha2 & Hoth).
   assert (H2 : abs d h2 r = Some t).
   { eapply abs_stable; [exact H|]. intros i ob Hi _. rewrite Hoth; [eapply extends_lookup; eauto|]. intros ->. congruence. }
-  pose proof (add_node_template_equiv d h2 r t n nid' a' H2 ND Ha2) as A.
+  pose proof (add_node_template_equiv d h2 r t n nid' a' H2 Ha2) as A.
   destruct (add_node_template d h2 r n nid') as [h3|]; [|assumption].
-  destruct A as (t' & Ht' & Habs & Hids & _). eauto.
+  destruct A as (t' & Ht' & Habs & _). eauto.
 Qed.
-Lemma upd_all_equiv d r op var v ntot : forall targets h t i, abs d h r = Some t -> NoDup (circ_ids t) ->
+Lemma upd_all_equiv d r op var v ntot : forall targets h t i, abs d h r = Some t ->
   match upd_all d r h targets i ntot op var v with
-  | Some h' => exists t', tupd_all t targets i ntot op var v = Some t' /\ abs d h' r = Some t' /\ circ_ids t' = circ_ids t
+  | Some h' => exists t', tupd_all t targets i ntot op var v = Some t' /\ abs d h' r = Some t'
   | None => tupd_all t targets i ntot op var v = None
   end.
 Proof.
-  induction targets as [|n rest IH]; intros h t i H ND; cbn.
+  induction targets as [|n rest IH]; intros h t i H; cbn.
   - eauto.
-  - pose proof (upd_one_equiv d r h t n op var (pick v i ntot) H ND) as U.
+  - pose proof (upd_one_equiv d r h t n op var (pick v i ntot) H) as U.
     destruct (upd_one d r h n op var (pick v i ntot)) as [h'|]; [|now rewrite U].
-    destruct U as (t' & -> & Habs & Hids). assert (ND' : NoDup (circ_ids t')) by now rewrite Hids.
-    specialize (IH h' t' (S i) Habs ND'). destruct (upd_all d r h' rest (S i) ntot op var v); [|assumption].
-    destruct IH as (t'' & ? & ? & Hids'). exists t''. repeat split; try assumption. congruence.
+    destruct U as (t' & -> & Habs). exact (IH h' t' (S i) Habs).
 Qed.
-Lemma update_var_equiv d r h t pat op var v : abs d h r = Some t -> NoDup (circ_ids t) ->
+Lemma update_var_equiv d r h t pat op var v : abs d h r = Some t ->
   match update_var d r h pat op var v with
-  | Some h' => exists t', tupdate_var t pat op var v = Some t' /\ abs d h' r = Some t' /\ circ_ids t' = circ_ids t
+  | Some h' => exists t', tupdate_var t pat op var v = Some t' /\ abs d h' r = Some t'
   | None => tupdate_var t pat op var v = None
   end.
 Proof.
-  intros H ND. unfold update_var, tupdate_var. rewrite (get_nodes_equiv d h r t pat H).
+  intros H. unfold update_var, tupdate_var. rewrite (get_nodes_equiv d h r t pat H).
   destruct (tget_nodes t pat) as [ns|]; [|reflexivity].
   rewrite (filter_ext (fun n => has_var d h r n op var) (fun n => thas_var t n op var))
     by (intros; now apply has_var_equiv).
@@ -433,16 +658,16 @@ Proof.
 Qed.
 
 (* ------------------------------------------------------------------ edge attribute update on the root *)
-Lemma update_edge_equiv d r h t s tg upd : abs d h r = Some t -> NoDup (circ_ids t) ->
+Lemma update_edge_equiv d r h t s tg upd : abs d h r = Some t ->
   match update_edge r h s tg upd with
-  | Some h' => exists t', tupdate_edge t s tg upd = Some t' /\ abs d h' r = Some t' /\ circ_ids t' = circ_ids t
+  | Some h' => exists t', tupdate_edge t s tg upd = Some t' /\ abs d h' r = Some t'
   | None => tupdate_edge t s tg upd = None
   end.
 Proof.
-  intros H ND. unfold update_edge.
+  intros H. pose proof (acyclic _ _ _ _ H) as Hacyc. unfold below in Hacyc. unfold update_edge.
   destruct d as [|d]; cbn in H; destruct (lookup h r) as [[| |ch es]|] eqn:E; try discriminate.
   - destruct (mapM (lift (node_den h)) ch) as [ns|] eqn:M; [|discriminate]. injection H as <-. cbn.
-    destruct (edges_update es s tg upd) as [es'|]; [|reflexivity]. eexists. split; [reflexivity|]. split; [|reflexivity].
+    destruct (edges_update es s tg upd) as [es'|]; [|reflexivity]. eexists. split; [reflexivity|].
     pose proof (lookup_lt _ _ _ E) as Hlt. cbn. rewrite hset_same by assumption.
     replace (mapM (lift (node_den (hset h r (OCirc ch es')))) ch) with (Some ns); [reflexivity|].
     rewrite <- M. apply mapM_ext_in. intros [k z] Hz. destruct (mapM_Some_in _ _ _ _ M Hz) as (w & Hw & _).
@@ -450,14 +675,14 @@ Proof.
     erewrite node_den_stable; eauto. intros i ob Hi Hc. rewrite hset_other; [assumption|].
     intros <-. rewrite E in Hi. injection Hi as <-. discriminate.
   - destruct (mapM (lift (abs d h)) ch) as [ss|] eqn:M; [|discriminate]. injection H as <-. cbn.
-    destruct (edges_update es s tg upd) as [es'|]; [|reflexivity]. eexists. split; [reflexivity|]. split; [|reflexivity].
+    destruct (edges_update es s tg upd) as [es'|]; [|reflexivity]. eexists. split; [reflexivity|].
     pose proof (lookup_lt _ _ _ E) as Hlt. cbn. rewrite hset_same by assumption.
     replace (mapM (lift (abs d (hset h r (OCirc ch es')))) ch) with (Some ss); [reflexivity|].
     rewrite <- M. apply mapM_ext_in. intros [k z] Hz. destruct (mapM_Some_in _ _ _ _ M Hz) as ([k' w] & Hw & Hin).
     unfold lift in *. cbn in *. destruct (abs d h z) eqn:N; [|discriminate]. injection Hw as <- <-.
     erewrite abs_stable; [reflexivity|exact N|]. intros i ob Hi Hc. rewrite hset_other; [assumption|]. intros <-.
-    rewrite E in Hi. injection Hi as <-. cbn in ND. inversion ND as [|? ? Hr _]; subst. apply Hr.
-    apply in_flat_map. exists (k, a). split; [assumption|]. cbn. auto.
+    rewrite E in Hi. injection Hi as <-. exfalso. apply Hacyc.
+    apply in_flat_map. exists (k, z). split; [assumption|]. cbn. now apply Hc.
 Qed.
 
 (* ------------------------------------------------------------------ observation *)
@@ -502,42 +727,39 @@ Proof.
 Qed.
 
 (* ------------------------------------------------------------------ histories *)
-Lemma step_refines d r h t o : abs d h r = Some t -> NoDup (circ_ids t) ->
-  abs d (fst (stepI d r h o)) r = Some (fst (stepS d t o)) /\ snd (stepI d r h o) = snd (stepS d t o) /\
-  circ_ids (fst (stepS d t o)) = circ_ids t.
+Lemma step_refines d r h t o : abs d h r = Some t ->
+  abs d (fst (stepI d r h o)) r = Some (fst (stepS d t o)) /\ snd (stepI d r h o) = snd (stepS d t o).
 Proof.
-  intros H ND. destruct o as [pat op var v|s tg upd|nv]; cbn.
-  - pose proof (update_var_equiv d r h t pat op var v H ND) as U. destruct (update_var d r h pat op var v).
-    + destruct U as (t' & -> & ? & ?). cbn. auto.
+  intros H. destruct o as [pat op var v|s tg upd|nv]; cbn.
+  - pose proof (update_var_equiv d r h t pat op var v H) as U. destruct (update_var d r h pat op var v).
+    + destruct U as (t' & -> & ?). cbn. auto.
     + rewrite U. cbn. auto.
-  - pose proof (update_edge_equiv d r h t s tg upd H ND) as U. destruct (update_edge r h s tg upd).
-    + destruct U as (t' & -> & ? & ?). cbn. auto.
+  - pose proof (update_edge_equiv d r h t s tg upd H) as U. destruct (update_edge r h s tg upd).
+    + destruct U as (t' & -> & ?). cbn. auto.
     + rewrite U. cbn. auto.
-  - repeat split; [assumption|]. now apply observe_equiv.
+  - split; [assumption|]. now apply observe_equiv.
 Qed.
-Theorem history_refines d r : forall ops h t, abs d h r = Some t -> NoDup (circ_ids t) ->
+Theorem history_refines d r : forall ops h t, abs d h r = Some t ->
   abs d (fst (runI d r h ops)) r = Some (fst (runS d t ops)) /\ snd (runI d r h ops) = snd (runS d t ops).
 Proof.
-  induction ops as [|o ops IH]; intros h t H ND; cbn; [auto|].
-  destruct (step_refines d r h t o H ND) as (Ha & Ho & Hids).
+  induction ops as [|o ops IH]; intros h t H; cbn; [auto|].
+  destruct (step_refines d r h t o H) as (Ha & Ho).
   destruct (stepI d r h o) as [h1 out]. destruct (stepS d t o) as [t1 out']. cbn in *. subst out'.
-  assert (ND1 : NoDup (circ_ids t1)) by now rewrite Hids.
-  destruct (IH h1 t1 Ha ND1) as (Hb & Hc). destruct (runI d r h1 ops) as [h2 outs]. destruct (runS d t1 ops) as [t2 outs'].
+  destruct (IH h1 t1 Ha) as (Hb & Hc). destruct (runI d r h1 ops) as [h2 outs]. destruct (runS d t1 ops) as [t2 outs'].
   cbn in *. subst. auto.
 Qed.
-Corollary history_refines_guard d r ops h t : abs d h r = Some t -> no_shared_subcircuit t = true ->
-  abs d (fst (runI d r h ops)) r = Some (fst (runS d t ops)) /\ snd (runI d r h ops) = snd (runS d t ops).
-Proof. intros H G. apply history_refines; [assumption|]. now apply nodupb_NoDup. Qed.
+Corollary history_outputs d r ops h t : abs d h r = Some t -> snd (runI d r h ops) = snd (runS d t ops).
+Proof. intros H. apply (history_refines d r ops h t H). Qed.
 
 (* ------------------------------------------------------------------ the frame property of the specification:
-   a functional update at path n changes the node at n and no other (first-match dictionaries, no NoDup needed).
+   a functional update at path n changes the node at n and no other (first-match dictionaries).
    `same_addr t n m`: do n and m address the same node of t (components beyond the leaf level are ignored, as the code does) *)
 Fixpoint same_addr (t : atree) (n m : path) : bool :=
   match n, m with
   | p :: n', q :: m' =>
     String.eqb p q && match t with
-                      | ALeaf _ _ _ => true
-                      | AInner _ ss _ => match dget p ss with Some s => same_addr s n' m' | None => true end
+                      | ALeaf _ _ => true
+                      | AInner ss _ => match dget p ss with Some s => same_addr s n' m' | None => true end
                       end
   | _, _ => false
   end.
@@ -556,7 +778,7 @@ Lemma tget_tset : forall n t a t' m, tset_node t n a = Some t' ->
 Proof.
   induction n as [|p n IH]; intros t a t' m H; [discriminate|].
   destruct m as [|q m]; [destruct t'; reflexivity|]. cbn [same_addr].
-  destruct t as [c ns es|c ss es]; cbn in H.
+  destruct t as [ns es|ss es]; cbn in H.
   - destruct (dhas p ns); [|discriminate]. injection H as <-. cbn. rewrite dget_dset. rewrite String.eqb_sym.
     destruct (String.eqb p q); reflexivity.
   - destruct (dget p ss) as [s|] eqn:G; [|discriminate]. destruct (tset_node s n a) as [s'|] eqn:S; [|discriminate].
